@@ -70,7 +70,7 @@ def jobs(tier, seed):
         keep = []
         for (E, M, sr) in out:
             eff = 23 - M if sr == 0 else sr
-            if sr in (1, 2) or (sr == 0 and M >= 7) or (eff <= 12 and rng.random() < 0.25):
+            if sr in (1, 2) or (sr == 0 and M >= 5) or (eff <= 12 and rng.random() < 0.4):
                 keep.append((E, M, sr))
         out = keep
     return out
@@ -190,7 +190,7 @@ CHECK = Check(
     rule=("for each (format E2..7 x M0..10, srbits in 1..12 and the default when 23-M <= 20) a block of float32 inputs (uniform and "
           "log-uniform over the range, subnormals, representable values, midpoints and quarter points, +-max and beyond, +-0); "
           "torch.randint is substituted so that ONE quantise call enumerates all 2^srbits draws for every input: P(round away) is "
-          "counted, not estimated. quick: every format with srbits 1, 2, a seeded quarter of the others and the default for M >= 7; "
+          "counted, not estimated. quick: every format with srbits 1, 2, a seeded 40% of the others and the default (all bits) for M >= 5; "
           "thorough: all 780 combinations. An input is non-trivial when its fractional position is strictly between 0 and 1; "
           "evaluations count inputs (each enumerated over all draws)."),
     assumptions=["neighbours from oracle B of C13 (cross-validated)", "P == p exactly when all 23-M discarded bits are used and |x| >= min normal; "
